@@ -67,7 +67,7 @@ Section Placement.
 Variable b : board.
 Variable m : N.
 Hypothesis HR : Rep b.
-Hypothesis HV : valid (abs b) = true.
+Hypothesis HV : valid_core (abs b) = true.
 Hypothesis HL : legal_spec (abs b) m = true.
 
 Let from := mv_from m.
@@ -82,7 +82,7 @@ Lemma to_lt : to < 64. Proof. apply mv_to_lt. Qed.
 
 (* the en-passant target of a valid position *)
 Lemma valid_ep : ep_ok (abs b) = true.
-Proof. apply (valid_parts _ HV). Qed.
+Proof. apply (valid_core_parts _ HV). Qed.
 
 (* an en-passant capture in a valid position has the capture shape *)
 Lemma ep_shape k : cell b from = Some (me, k) -> owned_by (abs b) to me = false ->
